@@ -15,12 +15,12 @@ def run(tier):
     r = vlib.run_tlc("MC_Border", "MC_Border.cfg", timeout=1800)
     if not r.ok:
         raise Broken("MC_Border: %s\n%s" % (r.violated or r.error, r.out[-2000:]))
-    if len(r.vecs) < 10000:
+    if len(r.vecs) < 30000:
         raise Broken("MC_Border produced only %d vectors" % len(r.vecs))
     summary, mism = vlib.replay_vectors(drv, ["border-replay", "-N", "8", "-S", "4", "-tier", tier], r.vecs)
     for m in mism[:10]:
-        v.violation("grid %s z=%s: vertex %s (inside=%s, ignore=%s): SnapPolygon -> %s (specified %s), InsertPoint -> %s (specified %s)"
-                    % (m["grid"], m["z"], m["ring"][m["vec"]["k"]], m["vec"]["inside"], m["vec"]["ig"], m["snap_outcome"],
+        v.violation("grid %s z=%s: %s vertex %s (inside=%s, ignore=%s): SnapPolygon -> %s (specified %s), InsertPoint -> %s (specified %s)"
+                    % (m["grid"], m["z"], m["vec"].get("shape"), m["ring"][m["vec"]["k"]], m["vec"]["inside"], m["vec"]["ig"], m["snap_outcome"],
                        m["vec"]["expect"], m["insert_outcome"], m["want_insert"]),
                     {"kind": "border-vector", "vec": m["vec"], "grid": m["grid"], "z": m["z"], "ring": m["ring"]}, name="border")
     if summary["bad"] > 10:
@@ -33,7 +33,7 @@ def run(tier):
         "vectors": len(r.vecs), "vectors_outside": outside, "replays": summary["n"], "replay_mismatches": summary["bad"],
         "skipped_inexact_float": summary["skipped_inexact"], "grids": summary["grids"], "exhaustive": True,
         "rule": "every lattice point (quarter pixel) within 2 pixels of any border of an 8x8-pixel model grid, inside and outside, "
-                "x position of the vertex in the triangle x ignore flag; distances are measured from the nearest border and replayed on each grid; "
+                "x position of the vertex in the ring x {plain triangle, shell followed by an in-grid hole, hole after an in-grid shell} x ignore flag; distances are measured from the nearest border and replayed on each grid; "
                 "a replay is skipped only when no float64 converts to the intended 1e-10 integer",
     }, time.time() - t0, violations=len(v.violations),
         assumptions=["'any amount' is quantified at multiples of a quarter of the deepest pixel (>= 2^-10 units)",
